@@ -1241,7 +1241,56 @@ pub fn run_c13_bigchain(n: usize) -> Result<(), String> {
     if infos.len() != n || infos.iter().any(|i| i.drops != 1) {
         return Err(format!("{} of {n} values dropped exactly once", infos.iter().filter(|i| i.drops == 1).count()));
     }
-    run_c13_zst()
+    run_c13_zst()?;
+    run_c13_static_stress(8, 20_000)
+}
+
+/// `-> &'static T` and parameter-borrowed returns configured as *repeatable* (`each_call(..).returns(r)`), requested
+/// by several threads through one shared instance: every request is answered, with the configured reference.
+#[unimock::unimock(api = SMock)]
+pub trait StaticLend {
+    fn s_static(&self, x: u32) -> &'static u32;
+    fn s_param<'a>(&self, x: &'a u32) -> &'a u32;
+}
+
+pub fn run_c13_static_stress(n_threads: usize, per_thread: usize) -> Result<(), String> {
+    static TARGET: u32 = 4711;
+    let u = Unimock::new((
+        SMock::s_static.each_call(matching!(_)).returns(&TARGET),
+        SMock::s_param.each_call(matching!(_)).returns(&TARGET),
+    ))
+    .no_verify_in_drop();
+    let barrier = std::sync::Barrier::new(n_threads);
+    let refused = std::sync::atomic::AtomicUsize::new(0);
+    let wrong = std::sync::atomic::AtomicUsize::new(0);
+    std::thread::scope(|scope| {
+        for tid in 0..n_threads {
+            let (u, barrier, refused, wrong) = (&u, &barrier, &refused, &wrong);
+            scope.spawn(move || {
+                barrier.wait();
+                let arg = tid as u32;
+                for i in 0..per_thread {
+                    let r = if i % 2 == 0 { guarded(|| u.s_static(1)) } else { guarded(|| u.s_param(&arg)) };
+                    match r {
+                        Ok(r) if std::ptr::eq(r, &TARGET) && *r == 4711 => {}
+                        Ok(_) => {
+                            wrong.fetch_add(1, std::sync::atomic::Ordering::SeqCst);
+                        }
+                        Err(_) => {
+                            refused.fetch_add(1, std::sync::atomic::Ordering::SeqCst);
+                        }
+                    }
+                }
+            });
+        }
+    });
+    let (refused, wrong) = (refused.into_inner(), wrong.into_inner());
+    if refused != 0 || wrong != 0 {
+        return Err(format!(
+            "repeatable reference returns under {n_threads} threads x {per_thread} calls: {refused} requests refused, {wrong} answered with another reference"
+        ));
+    }
+    Ok(())
 }
 
 /// Zero-sized values with a destructor (marker / guard types) are lent values like any other: dropped exactly once,
